@@ -59,6 +59,7 @@ def render : Out → String
   | .barAckErr r b e =>
       withSpec (s!"ackerr {showAck r}" ++ flushedSuffix b) (s!"ackerr {showAck r}" ++ flushedSuffix (curOf b e))
   | .barMismatch => "mismatch"
+  | .barRefused => "refused"
   | .barBlocked => "blocked"
   | .barNotReady => "notready"
   | .tickRead ops => s!"read o={ids ops}"
@@ -122,6 +123,7 @@ def shortBar : Out → String
   | .barAcked _ _ _ => "acked"
   | .barAckErr r _ _ => s!"ackerr:{showAck r}"
   | .barMismatch => "mismatch"
+  | .barRefused => "refused"
   | .barBlocked => "blocked"
   | .barNotReady => "notready"
   | _ => "?"
